@@ -49,6 +49,10 @@ func c07Reply(tag string) *dns.Msg {
 	r := new(dns.Msg)
 	r.Id = vU16(tag + ".id")
 	r.Response = true
+	// header bits a hostile or broken upstream may set: none of them excuses
+	// a wrong question
+	r.Truncated, r.Authoritative = vBool(tag+".tc"), vBool(tag+".aa")
+	r.Rcode = int(vU8(tag+".rcode") & 15)
 	nq := vChoice(tag+".questions", 3)
 	for i := 0; i < nq; i++ {
 		b := vBytes(tag+".name", 2)
@@ -64,7 +68,7 @@ func c07Reply(tag string) *dns.Msg {
 // on a stream the first mismatch is an error.
 //
 //verif:entry tier=quick,thorough
-//verif:bound scripts of 1-2 (quick) / 1-3 (thorough) upstream replies, each with symbolic 16-bit id, 0-2 questions, symbolic qtype/qclass and two symbolic one-character labels (any ASCII but '.' and '\\'); datagram and stream transports; write may fail
+//verif:bound scripts of 1-2 (quick) / 1-3 (thorough) upstream replies, each with symbolic 16-bit id, TC / AA bits and rcode, 0-2 questions, symbolic qtype/qclass and two symbolic one-character labels (any ASCII but '.' and '\\'); datagram and stream transports; write may fail
 func VerifC07_ExchangeGuard() {
 	maxReplies := 2
 	if vTier() > 0 {
